@@ -3,7 +3,7 @@
    followed by Print Assumptions. *)
 From Coq Require Import ZArith QArith Qabs Reals List Bool Lia Floats.SpecFloat.
 From Flocq Require Import Core.Zaux Core.Raux Core.Defs Core.Generic_fmt Core.Round_NE Core.Ulp Core.FLT IEEE754.BinarySingleNaN.
-From NV Require Import C02.Model C02.Tables C02.Lemmas C02.ModelQ C02.LemmasQ C02.ModelF C02.LemmasF C02.LemmasFW C02.LemmasFN C02.LemmasFR C02.LemmasFG C02.LemmasFA.
+From NV Require Import C02.Model C02.Tables C02.Lemmas C02.ModelQ C02.LemmasQ C02.ModelF C02.LemmasF C02.LemmasFW C02.LemmasFN C02.LemmasFR C02.LemmasFG C02.LemmasFA C02.LemmasFI.
 Import ListNotations.
 Open Scope Z_scope.
 
@@ -347,6 +347,29 @@ Theorem C02_float_gap_intercept_partial : forall slope32 inter32 lo hi nf x t,
 Proof. exact intercept_gap. Qed.
 Print Assumptions C02_float_gap_intercept_partial.
 
+(* (c') C02_float_gap_intercept: the intercept branch with an explicit allowance, relative to
+   |x| + |i| + |s| (cancellation in x - i forbids a bound relative to |x - i|):
+        |reload - x| <= |s|/2 + (|x| + |i| + |s|) * 2^-49
+   binary64 working format, float32 slope s <> 0 and intercept i as stored, no overflow, element
+   inside the clip range.  The harness evaluates exactly this inequality in this regime. *)
+Theorem C02_float_gap_intercept : forall slope32 inter32 lo hi nf x t,
+  fin K64 x -> is_finite_strict (sf2b K32 slope32) = true -> is_finite (sf2b K32 inter32) = true ->
+  let s := B2R (sf2b K32 slope32) in
+  let i := B2R (sf2b K32 inter32) in
+  let sl := fconv K64 slope32 in
+  let it := fconv K64 inter32 in
+  (Rabs (B2R (sf2b K64 x) - i) <= bpow radix2 1023)%R ->
+  (Rabs (RN64 (B2R (sf2b K64 x) - i) / s) <= bpow radix2 52)%R ->
+  let y := frint K64 (scale_w K64 sl it x) in
+  fle K64 lo y = true -> fle K64 y hi = true ->
+  let k := ZnearestE (RN64 (RN64 (B2R (sf2b K64 x) - i) / s)) in
+  let r := snd (read_elem t K64 sl it k) in
+  f_trunc K64 (elem_f K64 sl it lo hi nf x) = Some k /\ fin K64 r
+  /\ (Rabs (B2R (sf2b K64 r) - B2R (sf2b K64 x))
+      <= Rabs s * / 2 + (Rabs (B2R (sf2b K64 x)) + Rabs i + Rabs s) * bpow radix2 (-49))%R.
+Proof. exact intercept_gap_explicit. Qed.
+Print Assumptions C02_float_gap_intercept.
+
 (* (d) clipped elements: a rounded scaled value strictly above (below) the clip bound is stored as
    the bound's integer zhi (zlo) and reloads as the clip limit in data units, zhi*s + i, up to
    the read rounding: the error of a clipped element is its distance to the clip limit plus
@@ -475,15 +498,16 @@ Print Assumptions C02_subnormal_slope_refuted.
    stored slope is subnormal (finding S-C02c shows the statement is false there).
    Proved pieces: C02_no_wrap_float(_platform/_inputs); C02_reload_is_rounding;
    C02_write_read_rounding (a), C02_float_gap_slope_only (b, explicit bound, evaluated verbatim by
-   the harness), C02_float_gap_intercept_partial (c, ulp form), C02_clipped_above/_below (d),
+   the harness), C02_float_gap_intercept_partial (c, ulp form) and C02_float_gap_intercept (c, explicit bound,
+   evaluated verbatim by the harness), C02_clipped_above/_below (d),
    C02_setter_rounding; C02_read_error_real, C02_float_gap_real_partial (rounding-operator level).
    Still missing, exactly:
    (1) the float32 and longdouble WORKING formats (float32 / float16 / 8- and 16-bit integer data;
        overflow fallback): (a)-(d) and the array lift are proved for the binary64 working format
        only; the float32 reload of SPM99 is not analysed;
-   (2) (c) with the ulp terms turned into an explicit allowance (|x| + |i| + |s|) * c * 2^-52
-       (cancellation in x - i makes the bound relative to |x| + |i|, not to |x - i|), and the
-       corresponding harness predicate;
+   (2) done per element for binary64 (C02_float_gap_intercept, evaluated verbatim by the harness);
+       not lifted to whole arrays on the NIfTI path (C02_array_lift gives the elements, the
+       composition with writer_write WSlopeInter is missing);
    (3) done for float64 arrays on the SPM path (C02_array_lift, C02_array_gap_slope_only); not
        done: the NIfTI path with intercept 0 (same lift through WSlopeInter), arrays containing
        NaN/inf together with the lift (the per-element theorems allow them), 32/64-bit integer
